@@ -337,44 +337,61 @@ Definition exact_fp_fail (thr : Z) (e : ep) : bool := (0 <? rv e) && (thr * rv e
    clause 8: gD = 0 (fails after an already ejected endpoint was ejected again: finding)
    clause 9: clause 2 with the exact share #ejected/#endpoints (fails on float rounding: finding)
    clause 10: clause 1 with the exact failure percentage (fails on float rounding: finding) *)
+Definition swapped (sm : state) : list (Z * ep) :=
+  map (fun p => (fst p, swap_ep (snd p))) (eps sm).
+(* the outlier test of an enabled algorithm, on the swapped buckets l0 *)
+Definition crit_any (c : conf) (l0 : list (Z * ep)) (e : ep) : bool :=
+  let L := considered (sr_vol c) l0 in
+  (sr_on c && negb (len L <? sr_min c) && sr_crit c L e) || (fp_on c && fp_crit c e).
+(* the implementation's record says: endpoint id carries ejection time t *)
+Definition ejected_now (o : word) (t id : Z) : bool := o_present o id && (o_ejat o id =? t).
+
+Definition cl1 (K : Z) (fr : option (conf * state)) (prev o : word) : bool :=
+  let t := nth 1 o 0 in
+  match fr with
+  | None => forallb (fun id => negb (ejected_now o t id && negb (o_ejat prev id =? t))) (names K)
+  | Some (c, sm) =>
+    forallb (fun id =>
+      if ejected_now o t id then
+        match find id (swapped sm) with
+        | Some e => crit_any c (swapped sm) e
+        | None => false
+        end
+      else true) (names K)
+  end.
+
+Definition cl2 (K : Z) (fr : option (conf * state)) (o : word) : bool :=
+  let t := nth 1 o 0 in
+  match fr with
+  | None => true
+  | Some (c, sm) =>
+    if existsb (ejected_now o t) (names K)
+    then negb (share_ge (numej sm) (len (eps sm)) (maxpct c)) else true
+  end.
+
+Definition cl3 (K : Z) (fr : option (conf * state)) (o : word) : bool :=
+  let t := nth 1 o 0 in
+  match fr with
+  | None => true
+  | Some (c, sm) =>
+    forallb (fun id =>
+      match find id (eps sm) with
+      | Some e =>
+        if is_ej e && o_present o id && negb (o_ejat o id =? t) then
+          Bool.eqb (o_ejat o id =? -1)
+                   (match ej e with Some t0 => t0 + eject_span c (o_mult o id) <? t | None => false end)
+        else true
+      | None => true
+      end) (names K)
+  end.
+
 Definition clause_op (K : Z) (st st' : state) (prev op o : word) (i : Z) : list (Z * Z * bool) :=
   if Z.of_nat (length o) <? 3 + 6 * K then [(0, i, false)] else
   let fr := fired K st op in
   let t := nth 1 o 0 in
-  [ (1, i, match fr with
-           | None => forallb (fun id => negb (o_present o id && (o_ejat o id =? t) &&
-                                              negb (o_ejat prev id =? t))) (names K)
-           | Some (c, sm) =>
-             let l0 := map (fun p => (fst p, swap_ep (snd p))) (eps sm) in
-             let L := considered (sr_vol c) l0 in
-             forallb (fun id =>
-               if o_present o id && (o_ejat o id =? t) then
-                 match find id l0 with
-                 | Some e => (sr_on c && negb (len L <? sr_min c) && sr_crit c L e) ||
-                             (fp_on c && fp_crit c e)
-                 | None => false
-                 end
-               else true) (names K)
-           end);
-    (2, i, match fr with
-           | None => true
-           | Some (c, sm) =>
-             if existsb (fun id => o_present o id && (o_ejat o id =? t)) (names K)
-             then negb (share_ge (numej sm) (len (eps sm)) (maxpct c)) else true
-           end);
-    (3, i, match fr with
-           | None => true
-           | Some (c, sm) =>
-             forallb (fun id =>
-               match find id (eps sm) with
-               | Some e =>
-                 if is_ej e && o_present o id && negb (o_ejat o id =? t) then
-                   Bool.eqb (o_ejat o id =? -1)
-                            (match ej e with Some t0 => t0 + eject_span c (o_mult o id) <? t | None => false end)
-                 else true
-               | None => true
-               end) (names K)
-           end);
+  [ (1, i, cl1 K fr prev o);
+    (2, i, cl2 K fr o);
+    (3, i, cl3 K fr o);
     (4, i, match op with
            | 1 :: w => match decode_config K w with
                        | Some (c, _) => if noop c then
